@@ -172,7 +172,7 @@ def conds_c20(tier):
     counts("html_n1_max9", XH_N=1, XH_MAXT=9, XH_NEXC=0, XH_OBS="h")
     counts("html_n2_sym1_max5", XH_N=2, XH_NSYM=1, XH_MAXT=5, XH_NEXC=0, XH_OBS="h", XH_PAT=3)
     counts("untraced_n1_max3_exc1", XH_N=1, XH_MAXT=3, XH_NEXC=1, XH_OBS="u")
-    counts("untraced_n2_max2", XH_N=2, XH_MAXT=2, XH_NEXC=0, XH_OBS="u")
+    counts("untraced_n2_max1", XH_N=2, XH_MAXT=1, XH_NEXC=0, XH_OBS="u")
     if not quick:
         counts("console_n3_max9", XH_N=3, XH_MAXT=9, XH_NEXC=0, XH_OBS="c")
         counts("console_n1_max99", XH_N=1, XH_MAXT=99, XH_NEXC=0, XH_OBS="c")
@@ -184,6 +184,9 @@ def conds_c20(tier):
         counts("untraced_n3_max1", XH_N=3, XH_MAXT=1, XH_NEXC=0, XH_OBS="u")
     # -- elapsed string digits, and the validation conditions of the two CrossHair-side models
     cs.append(xhrun.Cond(H, "c20_elapsed", {"XH_MAXE": 35999999 if quick else 3599999999}, timeout=600, label="c20_elapsed"))
+    # -- the last rendering reflects the final counts: real update-thread code under a symbolic two-thread schedule
+    for nn in ((2, 3) if quick else (1, 2, 3, 4, 5)):
+        cs.append(xhrun.Cond("harness_render", "c20_final_render", {"XH_NNOTE": nn}, timeout=900, label=f"c20_final_render_n{nn}"))
     cs.append(xhrun.Cond(H, "c20_contains_model", {}, timeout=120, label="c20_model_contains"))
     cs.append(xhrun.Cond(H, "c20_format_model", {}, timeout=300, label="c20_model_int_format"))
     return cs, {}
@@ -237,6 +240,8 @@ DESCR = {
             "HtmlProgressObserver._render / _render_html / _render_body / _render_section / _render_scope / _get_html_progress_string / _get_total_scope_state / _render_exception_tuples",
             "IPythonProgressObserver._render / _get_exception_accordion (untraced)",
             "_simple_progress_observer.sorted_scope_items / _universal_sort_key / _fallback_sort_key / get_scope_string / _get_progress_string / get_elapsed_string / ScopeState",
+            "SimpleProgressObserver._run_update_thread / _do_render / __exit__ / increment_total / increment_running / increment_completed / increment_failed",
+            "State.increment_running / increment_completed / increment_failed / update_weighted_elapsed",
         ],
         "oracle": ("no exception from any _render; console text has the header and, per section, one line per scope "
                    "'  <progress right-aligned> | <elapsed right-aligned> | <scope string>' with the progress string recomputed from "
@@ -257,7 +262,8 @@ DESCR = {
             "CrossHair's format() patch is extended: symbolic ints with spec '' / '02' are formatted to symbolic digit strings instead of being realised (validated by condition c20_model_int_format); symbolic floats (HTML bar widths, never inspected) render as '?'",
             "contains(): native pre-filter for substring tests on long CrossHair strings (validated by condition c20_model_contains)",
             "get_elapsed_string: ints 0 <= e <= XH_MAXE symbolically; float inputs only through concrete samples (int() truncation is CPython's)",
-            "render points interleaved with notifications, the last-render-is-final and the time-attribution parts of C20 are E2/E3 (not in this module)",
+            "last render is final (xh/harness_render.py): the real _run_update_thread turned into a generator by an AST transformation (scheduling point before every statement outside `with self._lock`, Event.wait -> 'is the event set now'); granularity CHECKED on the source (notification bodies are one locked block, _do_render only under the lock, unprotected statements may store at most one shared attribute and not read any); schedule (12 symbolic choices) and clock readings symbolic; <= XH_NNOTE notifications then __exit__; Lock/Event/Thread/time stubs; replay = the same schedule through the same transformed real code in one OS thread (not on real threads)",
+            "time attribution (lemmas/elapsed.py): z3 linear real arithmetic over terms computed by calling the real State methods with a z3-valued clock; every C15-legal history of <= K events over S scopes x T calls (quick K=5,S=2,T=2) with symbolic non-negative gaps, followed by a render; floats are treated as reals (float rounding is outside the claim); a sat model is replayed on the unmodified module with exact Fraction clock readings",
         ],
         "rule": ("one obligation per (number of scopes, tuple lengths, kinds of the first scope, pattern offset, exceptions) resp. "
                  "(renderer, scopes, count bound); symbolic: kind/value codes, new_exception_index resp. completed/failed/running/total; "
@@ -292,6 +298,45 @@ def sanity(pid):
     return json.loads(p.stdout.strip().splitlines()[-1])
 
 
+def elapsed_lemma(pid, tier, ev):
+    """E3: z3 (linear real arithmetic) on terms computed by the real State methods; see lemmas/elapsed.py."""
+    cfgs = [(5, 2, 2)] if tier == "quick" else [(7, 2, 2), (6, 3, 1), (6, 2, 3)]
+    code = C.EXIT_OK
+    out = []
+    for kmax, nscope, total in cfgs:
+        p = subprocess.run([C.PY, "-c", f"import json, sys; sys.path.insert(0, {C.VERIF!r}); from lemmas import elapsed; "
+                            f"print(json.dumps(elapsed.run({C.SRC!r}, {kmax}, {nscope}, {total})))"],
+                           capture_output=True, text=True, timeout=3000)
+        try:
+            r = json.loads(p.stdout.strip().splitlines()[-1])
+        except Exception:
+            print(f"HARNESS-ERROR property={pid} elapsed lemma crashed: {(p.stdout + p.stderr)[-500:]!r}", flush=True)
+            return C.EXIT_HARNESS
+        out.append({k: v for k, v in r.items() if k not in ("sat", "inconclusive")} | {"sat": len(r["sat"]), "inconclusive": len(r["inconclusive"])})
+        if r["sat"]:
+            m = r["sat"][0]
+            path = os.path.join(C.replay_dir(pid), f"elapsed_k{kmax}_s{nscope}_t{total}.json")
+            json.dump({"src": C.SRC, "history": m["history"], "gaps": m["gaps"], "nscope": nscope, "total": total, "why": m["why"]}, open(path, "w"))
+            q = subprocess.run([C.PY, os.path.join(C.VERIF, "lemmas", "elapsed.py"), "replay", path], capture_output=True, text=True, timeout=120)
+            if q.returncode == 10:
+                C.violation(pid, path)
+                print("  " + q.stdout.strip()[-400:])
+                ev.violations += 1
+                code = C.EXIT_VIOLATION
+            else:
+                print(f"HARNESS-ERROR property={pid} elapsed lemma model did not reproduce on the real module: {(q.stdout + q.stderr)[-400:]!r}", flush=True)
+                code = code if code == C.EXIT_VIOLATION else C.EXIT_HARNESS
+        elif r["inconclusive"] or not r.get("witness_busy_history"):
+            print(f"HARNESS-ERROR property={pid} elapsed lemma inconclusive: {json.dumps(r['inconclusive'][:2])[:400]} witness={r.get('witness_busy_history')}", flush=True)
+            code = code if code == C.EXIT_VIOLATION else C.EXIT_HARNESS
+    cov = ev.coverage
+    cov["elapsed_lemma"] = out
+    cov["obligations"] = cov.get("obligations", 0) + sum(o["histories"] for o in out)
+    cov["discharged"] = cov.get("discharged", 0) + sum(o["unsat"] for o in out)
+    cov["evaluations"] = cov.get("evaluations", 0) + sum(o["histories"] for o in out)
+    return code
+
+
 def main(pid):
     if pid not in DESCR:
         raise SystemExit(f"no check for {pid}")
@@ -307,6 +352,10 @@ def main(pid):
     code = xhrun.summarize(pid, results, ev)
     cov = ev.coverage
     cov.update(extra)
+    if pid == "C20":
+        lcode = elapsed_lemma(pid, tier, ev)
+        if lcode == C.EXIT_VIOLATION or (lcode != C.EXIT_OK and code == C.EXIT_OK):
+            code = lcode
     cov["stub_validations"] = san
     if "error" in san:
         print(f"HARNESS-ERROR property={pid} concrete stub/oracle validation failed: {san['error'][-600:]!r}", flush=True)
